@@ -57,6 +57,7 @@ def cases(tier, seed):
 
 
 def gen_opts(rng, spec):
+    import vworld
     o = {}
     r = rng.random()
     if r < 0.45:
@@ -79,7 +80,7 @@ def gen_opts(rng, spec):
     if rng.random() < 0.35:
         lnames = [ls['name'] for ls in spec['layers']]
         sub = rng.sample(lnames, rng.randint(1, len(lnames)))
-        pats = ['%s\\.%s$' % (spec['layers_module'], s) for s in sub]
+        pats = [vworld.layer_pattern(spec, s) for s in sub]
         if rng.random() < 0.3:
             pats.append('UnitTests')
         if rng.random() < 0.2:
